@@ -536,6 +536,7 @@ func genFR(w *bufio.Writer, thorough bool, r *Rng) {
 	}
 	reuseLines(w, r, k)
 	cumLines(w, r, 2*k)
+	tinyHistoryLines(w, r)
 	// sources that deliver a prefix and then fail, with errors that wrap io.EOF / io.ErrUnexpectedEOF: never a clean end
 	for _, bf := range someFrames(r, 2*k, false) {
 		if bf.legacy || len(bf.frame) < 20 {
@@ -735,6 +736,41 @@ func reuseLines(w *bufio.Writer, r *Rng, k int) {
 		// WriteTo fails on its destination with blocks in flight, then the Reader is reused
 		fmt.Fprintf(w, "R %d %s 0 -1 0 wt:%d R:%s wt:-1 r:5\n", r.Pick([]int{2, 4, 8}), a, r.Intn(3), b)
 		fmt.Fprintf(w, "R %d %s 0 -1 0 wt:%d R:%s r:%d r:5\n", r.Pick([]int{1, 2, 4}), b, r.Intn(2), a, alen+10)
+	}
+}
+
+// tinyHistoryLines: dependent-block frames whose first block(s) hold fewer than four bytes, and a later block
+// with a match that starts in that tiny history and runs on into its own output
+func tinyHistoryLines(w *bufio.Writer, r *Rng) {
+	for _, h := range []int{1, 2, 3} {
+		for _, split := range []bool{false, true} {
+			hist := r.Bytes(h)
+			desc := []byte{1 << 6, 4 << 4} // dependent blocks, no checksums
+			fr := append(le32b(0x184D2204), desc...)
+			fr = append(fr, byte(refXXH32(desc)>>8))
+			raw := func(b []byte) {
+				fr = append(fr, le32b(0x80000000|uint32(len(b)))...)
+				fr = append(fr, b...)
+			}
+			if split && h > 1 {
+				raw(hist[:1])
+				raw(hist[1:])
+			} else {
+				raw(hist)
+			}
+			ml := 4 + r.Intn(11) // 4..14
+			payload := []byte{byte(ml - 4), byte(h), 0, 0x50, 'h', 'e', 'l', 'l', 'o'}
+			fr = append(fr, le32b(uint32(len(payload)))...)
+			fr = append(fr, payload...)
+			fr = append(fr, 0, 0, 0, 0)
+			content := append([]byte{}, hist...)
+			for k := 0; k < ml; k++ {
+				content = append(content, content[len(content)-h])
+			}
+			content = append(content, "hello"...)
+			ref, cref := saveBlob("tinyhist", fr), saveBlob("tinyhistc", content)
+			fmt.Fprintf(w, "R %d %s 0 -1 0 %s E:%s\n", r.Pick([]int{1, 4}), ref, []string{"wt:-1", "r:100 r:9", "r:1 r:1 r:1 r:100 r:9"}[r.Intn(3)], cref)
+		}
 	}
 }
 
